@@ -245,7 +245,14 @@ func ruleMap(r *hlib.Rand, ru fwlib.Rule, damage bool) any {
 		case 7:
 			m[hlib.Pick(r, "port", "proto", "host", "cidr", "local_cidr", "ca_name", "ca_sha", "code")] = oddValue(r)
 		case 8:
-			return oddValue(r)
+			if r.Bool() {
+				return oddValue(r)
+			}
+			// exactly one selector field left, in a random shape
+			for _, k := range selectorFields {
+				delete(m, k)
+			}
+			selectorShape(m, selectorFields[r.Intn(len(selectorFields))], r.Intn(6))
 		case 9:
 			m["port"] = hlib.Pick(r, "0-5", "0-0", "5-3", "0-65535", "65535-65536")
 		case 10:
@@ -317,11 +324,84 @@ func expressible(r fwlib.Rule) fwlib.Rule {
 	return r
 }
 
+var selectorFields = []string{"host", "group", "groups", "cidr", "local_cidr", "ca_name", "ca_sha"}
+
+func selectorScalar(f string) string {
+	switch f {
+	case "host":
+		return "h1"
+	case "group", "groups":
+		return "g1"
+	case "cidr", "local_cidr":
+		return "10.0.0.0/8"
+	case "ca_name":
+		return "caA"
+	}
+	return "ca1"
+}
+
+// selectorShape sets field f of the rule map to one of the shapes a configuration can give it.
+func selectorShape(m map[string]any, f string, shape int) {
+	switch shape {
+	case 0: // absent
+		delete(m, f)
+	case 1:
+		m[f] = nil
+	case 2:
+		m[f] = []any{}
+	case 3:
+		m[f] = ""
+	case 4:
+		m[f] = []any{selectorScalar(f)}
+	default:
+		m[f] = selectorScalar(f)
+	}
+}
+
+// selectorFamily: "at least one selector" for every selector field in every shape {absent, null, empty list,
+// empty string, list of one, scalar}, as the only selector and in pairs; each rule is loaded into a fresh firewall
+// and probed with one packet (a rule without selector would admit everybody).
+func selectorFamily(emit func(string, ...any)) int {
+	ops := 0
+	one := func(m map[string]any) {
+		v := []any{m}
+		emit("reset 0 %d %d %d 0 me 0a000001/8 - - ca1", uint64(3600e9), uint64(3600e9), uint64(3600e9))
+		emit("ca ca1 caA")
+		emit("peer p0 h1 0a000002/8 - g1 ca1")
+		emit("load in %s %s", tok(v), oracleTok(v))
+		emit("match p0 in 0a000001 0a000002 80 4000 6 0")
+		ops += 2
+	}
+	base := func() map[string]any { return map[string]any{"port": "80", "proto": "tcp"} }
+	one(base())
+	for _, f := range selectorFields {
+		for shape := 1; shape <= 5; shape++ {
+			m := base()
+			selectorShape(m, f, shape)
+			one(m)
+		}
+	}
+	for i, f1 := range selectorFields {
+		for _, f2 := range selectorFields[i+1:] {
+			for _, s1 := range []int{1, 2, 3, 5} {
+				for _, s2 := range []int{1, 2, 3, 5} {
+					m := base()
+					selectorShape(m, f1, s1)
+					selectorShape(m, f2, s2)
+					one(m)
+				}
+			}
+		}
+	}
+	return ops
+}
+
 func gen(r *hlib.Rand, n int, tier, profile string, emit func(string, ...any)) {
 	for _, p := range portPool {
 		emit("port s%s", hx(p))
 	}
 	ops := len(portPool)
+	ops += selectorFamily(emit)
 	for ops < n {
 		switch r.Intn(10) {
 		case 0, 1, 2:
